@@ -14,8 +14,8 @@ from . import unit as U
 
 VERIF = U.VERIF
 BUILD = os.environ.get("VX_BUILD") or os.path.join(VERIF, "build")
-EVID = os.path.join(VERIF, "evidence")
-REPLAYS = os.path.join(VERIF, "replays")
+EVID = os.environ.get("VX_EVID") or os.path.join(VERIF, "evidence")   # the seed matrix points this at a scratch directory
+REPLAYS = os.environ.get("VX_REPLAYS") or os.path.join(VERIF, "replays")
 REGISTRY = os.path.join(VERIF, "registry.json")
 KNOWN = os.path.join(VERIF, "known_findings.txt")
 
